@@ -37,11 +37,11 @@ def getConv (j : Json) : Except String Conv :=
 
 /-- user updaters, mirrored in `harness/props/c08.py` -/
 def userUpd : UserUpd
-  | "sub" => some fun c n => match c, n with
+  | "sub" => some fun c n => match c.view, n.view with
     | .int a, .int b => .ok (.int (a - b))
     | _, _ => .error .typeError
-  | "keep_max" => some fun c n => match c, n with
-    | .int a, .int b => .ok (.int (if a ≥ b then a else b))
+  | "keep_max" => some fun c n => match c.view, n.view with
+    | .int a, .int b => .ok (if a ≥ b then c else n)
     | _, _ => .error .typeError
   | "second" => some fun _ n => .ok n
   | _ => none
@@ -96,6 +96,12 @@ def handle (j : Json) : Except String Json := do
   | "access" =>
     let name ← (← arg j "name").getStr?
     return Json.arr #[Json.bool (accessUpdater name).isSome, Json.bool (accessDivider name).isSome]
+  | "tables" =>
+    let tj (t : List (String × String)) : Json :=
+      Json.arr (t.map fun kv => Json.arr #[Json.str kv.1, Json.str kv.2]).toArray
+    return Json.mkObj [("updaters", tj Generated.updaterTable), ("dividers", tj Generated.dividerTable),
+      ("updatersModelled", Json.bool (Generated.updaterTable.all fun kv => (UFn.ofPyName kv.2).isSome)),
+      ("dividersModelled", Json.bool (Generated.dividerTable.all fun kv => (DFn.ofPyName kv.2).isSome))]
   | "fn_upd" =>
     let E ← mkEnv j
     let name ← (← arg j "name").getStr?
